@@ -369,6 +369,34 @@ def prop_add_sub(na, nb, s, km, ca, ma, cb, mb, sa, sb) -> bool:
     return _unchanged(a, snap_a) and _unchanged(b, snap_b)
 
 
+def prop_sub_add(na, nb, s, km, ca, ma, cb, mb, sa, sb) -> bool:
+    """L1' (mirror of L1, the form the scheduler evaluates: capacity - used): when b fits in a
+    (every mount point of b is one of a, amounts <=), a-b carries the per-mount differences of
+    the per-mount TOTALS of a (a may hold several storages / aliasing keys on one mount point),
+    and (a-b)+b restores the per-mount totals of a; operands untouched."""
+    sh_a, sh_b = pair_shapes(na, nb)[s][km]
+    ta, tb = _totals(sh_a, sa), _totals(sh_b, sb)
+    for m in tb:
+        if m not in ta:
+            return True
+    if ca < cb or ma < mb:
+        return True
+    for m in tb:
+        if ta[m] < tb[m]:
+            return True
+    a = _mk(sh_a, ca, ma, sa)
+    b = _mk(sh_b, cb, mb, sb)
+    snap_a, snap_b = _snap(a), _snap(b)
+    d = a - b
+    diff = {m: (ta[m] - tb[m] if m in tb else ta[m]) for m in ta}
+    if not _has_totals(d, diff, ca - cb, ma - mb):
+        return False
+    r = d + b
+    if not _has_totals(r, ta, ca, ma):
+        return False
+    return _unchanged(a, snap_a) and _unchanged(b, snap_b)
+
+
 def prop_normalized(n, s, km, c, m, sizes) -> bool:
     """L2: normalized() is normal, keeps totals, is idempotent; operand untouched."""
     sh = single_shapes(n)[s][km]
@@ -478,6 +506,11 @@ def _pick(g, lo, hi) -> int:
 def prop_add_sub_case(maxn, lo, hi, g, km, ca, ma, cb, mb, sa, sb) -> bool:
     na, nb, s = pair_cases(maxn)[_pick(g, lo, hi)]
     return prop_add_sub(na, nb, s, _pick(km, 0, 3), ca, ma, cb, mb, sa[:na], sb[:nb])
+
+
+def prop_sub_add_case(maxn, lo, hi, g, km, ca, ma, cb, mb, sa, sb) -> bool:
+    na, nb, s = pair_cases(maxn)[_pick(g, lo, hi)]
+    return prop_sub_add(na, nb, s, _pick(km, 0, 3), ca, ma, cb, mb, sa[:na], sb[:nb])
 
 
 def prop_satisfies_case(maxn, lo, hi, g, km, ca, ma, cb, mb, sa, sb) -> bool:
@@ -1323,6 +1356,7 @@ def specs(tier: str):
     cases = pair_cases(maxn)
     for law, prop, targets, group, budget in (
         ("addsub", "prop_add_sub_case", T_HW, "L1 a+b = per-mount sums; (a+b)-b restores a; operands untouched", 400 if quick else 1500),
+        ("subadd", "prop_sub_add_case", T_HW, "L1' b fits in a: a-b = per-mount differences of a's totals (a with aliasing keys / several storages per mount point); (a-b)+b restores a", 400 if quick else 1500),
         ("sat", "prop_satisfies_case", T_SAT, "L3 a.satisfies(b) <=> cores, memory, every mount point of b are <= in a", 300 if quick else 1000),
     ):
         weights = [2 + na + nb for na, nb, _ in cases]
